@@ -87,7 +87,7 @@ def execute_enumeration(spec):
     while True:
         sched = dict(spec["sched"])
         sched.update({"choice_policy": "first", "draw_policy": "natural", "script": list(prefix), "budget": 4000})
-        out = genrun.run_molecule(text, sched, props=(), embed="stub", forced_draws=list(targets), wall=60, ast=ast)
+        out = genrun.run_molecule(text, sched, props=(), embed="stub", forced_draws=list(targets), wall=150, ast=ast)
         if out.harness_error:
             return {"harness_error": out.harness_error, "violations": []}
         n_paths += 1
